@@ -303,7 +303,7 @@ var OlvmNoGaslimit = false
 func olvmEnvCode() []byte {
 	vals := []byte{ovCALLER, ovORIGIN, ovTIMESTAMP, ovNUMBER, ovCHAINID, ovGASPRICE, ovSELFBALANCE, ovADDRESS, ovCALLVALUE}
 	a := newOlvmAsm()
-	a.sel().caseOf(1, "store").caseOf(2, "log").caseOf(3, "bhash").caseOf(4, "basefee").caseOf(5, "ext").caseOf(6, "probe").caseOf(7, "bhash3")
+	a.sel().caseOf(1, "store").caseOf(2, "log").caseOf(3, "bhash").caseOf(4, "basefee").caseOf(5, "ext").caseOf(6, "probe").caseOf(7, "bhash3").caseOf(8, "logpanic")
 	a.op(ovSTOP)
 	a.label("store")
 	for i, v := range vals {
@@ -322,6 +322,8 @@ func olvmEnvCode() []byte {
 	// the same earlier block's hash twice, then its predecessor's (the hash provider caches per transaction)
 	a.label("bhash3").arg(0).op(ovNUMBER, ovSUB, ovBLOCKHASH).sstoreTo(0x23).arg(0).op(ovNUMBER, ovSUB, ovBLOCKHASH).sstoreTo(0x24)
 	a.push(1).arg(0).op(ovADD, ovNUMBER, ovSUB, ovBLOCKHASH).sstoreTo(0x25).op(ovSTOP)
+	// a log, then a panic inside the EVM (BASEFEE with a nil base fee)
+	a.label("logpanic").push(32).push(0).op(ovLOG0, ovBASEFEE).sstoreTo(0x26).op(ovSTOP)
 	gl := byte(ovGASLIMIT)
 	if OlvmNoGaslimit {
 		gl = ovCODESIZE
@@ -911,8 +913,13 @@ func (st *olvmState) panicScenario(c *Ctx, snd *[]*olvmSender) []Tx {
 	x, y := (*snd)[0], (*snd)[1]
 	*snd = (*snd)[2:]
 	grp := "panic" + strconv.FormatInt(c.H, 10)
+	first := st.tx(c, x, &k.Addr, olvmSmall(c), olvmData(4), 200000, "OLVM/basefee-with-value", &olvmOpt{noBump: true})
+	if c.Rng.Intn(2) == 0 {
+		// the aborted transaction had already emitted a log
+		first = st.tx(c, x, &k.Addr, nil, olvmData(8), 200000, "OLVM/log-then-basefee", &olvmOpt{noBump: true})
+	}
 	out := []Tx{
-		st.tx(c, x, &k.Addr, olvmSmall(c), olvmData(4), 200000, "OLVM/basefee-with-value", &olvmOpt{noBump: true}),
+		first,
 		st.tx(c, y, &k.Addr, olvmSmall(c), olvmData(2), 200000, "OLVM/env-log-after-panic", nil),
 	}
 	for i := range out {
